@@ -554,4 +554,74 @@ theorem filter_abort_table :
     exact ⟨c', fin, hrun, endOnce_of_dataOutcome (pid_of_wf hwf).2
       (gapPre_wf (pid_of_wf hwf).2 (body_wf (pid_of_wf hwf).2 hbody) hpad (body_wf (pid_of_wf hwf).2 hdb)) hnb ho⟩
 
+/-! ## Non-vacuity -/
+namespace Example3
+open Fcgi.C01.Example Fcgi.C07E.Example Fcgi.C07U.Example Fcgi.C11F.Example Fcgi.C11F.Example2
+
+/-- the Data stream up to the abort: a management `GetValues` record, `Data("xyz")` -/
+def fDc : List Rec :=
+  [ { rtype := 9, id := 0, content := NV.enc (Vars.nameMaxConns, []), pad := [] },
+    { rtype := 8, id := 1, content := [120, 121, 122], pad := [] } ]
+
+theorem fDc_body : Body 1 8 [120, 121, 122] fDc :=
+  Body.noise _ ⟨⟨by decide, by decide +kernel, by decide⟩, by decide⟩
+    (Body.chunk [120, 121, 122] [] 0 (by decide) (by decide) Body.nil)
+
+theorem fDc_fits : NoiseFits (alignedBufsize 64) fDc := by
+  intro r hr hg
+  have : r ∈ fD := by
+    simp only [fDc, fD, List.mem_cons, List.not_mem_nil, or_false] at hr ⊢
+    rcases hr with rfl | rfl
+    · exact Or.inl rfl
+    · exact Or.inr (Or.inl rfl)
+  exact fD_fits r this hg
+
+theorem dE_wf : ∀ r ∈ dE, r.WF := by
+  intro r hr
+  rw [List.mem_singleton.1 hr]
+  exact ⟨by decide, by decide, by decide⟩
+
+/-- cell (a)(iii), KEEP_CONN: `Stdin("AB")`, Stdin terminator, `GetValues`, `Data("xyz")`, the abort record,
+the Data terminator -/
+def fr3T : Transport :=
+  { input := serAll recsFK ++ gapX 1 fS1 [] 0 fDc aR dE, endMode := .pend,
+    rd := [.n 24, .n 53, .pending, .all], wr := [.n 5, .pending, .all], fl := [] }
+
+/-- `filter_abort_data_e2e` applied to cell (a)(iii) (propagating handler, KEEP_CONN).  Replayed, model
+driver = crate, on this transport (`# case c11f-keep-iiip-split-R,s8,R,Xcomplete:3-24,53,P,A`): `… R=2:4142
+s=ok W32:5 W27:P |1 W27:27 R64:P |2 R64:17 R!abort-request:3:78797a HE(err:abort-request) W32:32 R64:W STALL`
+— the second read has `"xyz"` when the abort record arrives (`acc = xyz`): FULL epilogue `01 06 00 01 00 00 00
+00  01 07 00 01 00 00 00 00  01 03 00 01 00 08 00 00 41 42 52 54 00 00 00 00` in one write.  With
+`rd = 24,7,P,9,A` instead (`# case c11f-keep-iiip-R,s8,R,Xcomplete:3-24,7,P,9,A`) the Data record and the
+abort record are parsed in the same call: `R!abort-request:0:-` (`acc = []`, `"xyz"` is lost), bare 16-byte
+`EndRequest(1, ABORT)`. -/
+example : ∃ c' acc lost, runTask 20 (connS 64 10 fr3T [(rscript (.complete 3), true)]) 0 none = (c', "STALL") ∧
+    acc ++ lost = [120, 121, 122] ∧ raEvent acc ∈ c'.env.tr.events ∧
+    c'.env.tr.wlog = owedActive 1 10 (gapPre 1 fS1 [] 0 fDc) ++
+      epilogueFor 1 ExitStatus.abort (!acc.isEmpty) ++ idleOwed 10 dE ∧
+    c'.phase = .parseReq (track 64 10 (aR.ser ++ serAll dE)) .reading ∧
+    hsCount c'.env.tr.events = 1 ∧ c'.env.tr.input = [] := by
+  obtain ⟨c', fin, hrun, ho⟩ := filter_abort_data_e2e (p := preFK) (recs := recsFK) (sbody := fS1) (pad := [])
+    (res := 0) (dbody := fDc) (a := aR)
+    (post := dE) (b := 64) (mc := 10) (content := [65, 66]) (c2 := [120, 121, 122]) (s0 := .complete 3) (pr := true)
+    (more := []) (t := fr3T) (fuel := 20)
+    recsFK_wf rfl (fun q hq => by cases hq) (recsFK_fits _) fS1_body (fS1_fits _) (by decide) fDc_body fDc_fits
+    aR_abort dE_wf (dE_fits _) (by decide) rfl ⟨by decide, by decide, rfl, by decide⟩ rfl (by decide)
+    (by decide +kernel)
+  obtain ⟨acc, lost, hal, hra, hf⟩ := ho.final
+  rcases hf with ⟨_, hlog, hf⟩ | ⟨h, _⟩
+  · rcases hf with ⟨h, _⟩ | ⟨_, hfin, hph, hin, _⟩
+    · exact absurd h (by decide)
+    · subst hfin
+      refine ⟨c', acc, lost, hrun, hal, hra, ?_, hph, ho.one_handler.1, hin⟩
+      rw [hlog]
+      show [] ++ (owedPreamble preFK 10 recsFK ++ owedActive 1 10 (gapPre 1 fS1 [] 0 fDc) ++
+        epilogueFor 1 ExitStatus.abort (!acc.isEmpty) ++ idleOwed 10 dE) = _
+      have h1 : owedPreamble preFK 10 recsFK = [] := by decide +kernel
+      rw [h1]
+      simp only [List.nil_append]
+  · exact absurd h (by decide)
+
+end Example3
+
 end Fcgi.C11F
